@@ -37,18 +37,28 @@
   `symm_needs_nodup_params`, `symm_needs_nodup_hdrs` that with a repeated name the verdict depends on the order of
   the two arguments.
 
+  The parsers establish the side conditions (`Sipsp.Proofs.UriCmpLink`): `params_parsed_wf`, `hdrs_parsed_wf` (after
+  ParseAllURIParams / ParseAllURIHdrs on a new list of any capacity, any verdict: no panic, every stored element
+  inside the string, recorded type = classification of its name, type mask = the types that occur unless elements were
+  dropped for lack of room), `params_wf_of_nodup`, `hdrs_wf_of_nodup`, `uri_wf_of_parse` (every accepted URI whose
+  list names are duplicate-free up to letter case satisfies the hypotheses of the laws). Laws for RAW strings
+  (≤ 65,535 bytes): `refl_raw` (accepted, lists parse, duplicate-free names ⇒ equal to itself for every flag set, both
+  parsed URIs handed back), `symm_raw`, `symm_raw_full` (any two strings, accepted or not), `presence_raw`
+  (user / ttl / method / maddr in any letter case: in both texts or in neither, ≤ 100 parameters), letter case with NO
+  side condition: `parse_uri_case` (ParseURI returns the identical result on strings differing only in letter case),
+  `cmp_case_raw`, `cmp_host_case_raw` (same text up to case outside user / password ⇒ the complete URIParseCmp result
+  is unchanged). `refl_needs_lists_ok`, `symm_needs_nodup`: the two hypotheses are necessary (`sip:a@b;<` is accepted
+  by ParseURI but not equal to itself because its parameter list is rejected; `sip:a@b;x=1;X=2`).
+
   NOT proved here:
-    * that the parsers establish the side conditions (fields of the parsed parameter / header lists inside the string,
-      `types` = the types that occur, no panic): they are hypotheses (`ParamsWf`, `HdrsWf`, `TypesOk`), checked on
-      concrete URIs in the examples; freedom from duplicates is a genuine restriction on the input;
-    * `parseCmp_scheme_case` assumes that the fields of the parsed URIs start after the scheme (`AfterScheme`, a
-      parser invariant not proved here, checked on the example); in `cmp_order_case` the scheme enters only through
-      `uriType` (hypothesis `ShortSame.scheme`);
+    * order invariance at the raw-string level (the permutation law takes the parsed lists);
+    * the presence rule beyond 100 parameters (the mask then also covers dropped parameters);
     * transitivity of URICmp (false in general: parameters present in only one URI are ignored);
     * behaviour with more than 100 parameters / headers beyond what the hypotheses say about the stored prefix.
   Model tied to sipuri.go / parse_uri_params.go / parse_uri_hdrs.go by the correspondence check.
 -/
 import Sipsp.Proofs.UriCmpLaws
+import Sipsp.Proofs.UriCmpLink
 
 namespace Sipsp.C15
 open Sipsp
@@ -391,5 +401,71 @@ example : AfterScheme uA := by decide +kernel
 example : FlagsLe URICmpSkipPort (URICmpSkipPort ||| URICmpSkipHeaders) := FlagsLe.of_and (by decide)
 
 end Tests
+
+/-! ### the parsers establish the side conditions; laws for raw strings; letter case (proved in `Sipsp.Proofs.UriCmpLink`) -/
+
+/-- **ParseAllURIParams establishes the list hypotheses of the comparison laws** (new list of any capacity `k`, any
+    flags, any verdict, any offset inside a buffer within the 65,535-byte limit): no panic; every stored parameter
+    lies inside the buffer (`ParamIn`) and its recorded type is the classification of its name (`UclCls`); the type
+    mask is the set of types stored (`TypesOk`) unless parameters were dropped for lack of room. -/
+theorem params_parsed_wf : type_of% @Sipsp.parseAllURIParams_ucl := @Sipsp.parseAllURIParams_ucl
+
+/-- **ParseAllURIHdrs establishes the list hypothesis of the comparison laws**: every stored header lies inside the
+    buffer (`HdrIn`) -/
+theorem hdrs_parsed_wf : type_of% @Sipsp.parseAllURIHdrs_ucl := @Sipsp.parseAllURIHdrs_ucl
+
+/-- **every parameter string without duplicate names is well formed for comparison** (`ParamsWf`, the hypothesis of
+    the symmetry / reflexivity laws): the no-panic and inside-the-string parts hold for EVERY string within the limit -/
+theorem params_wf_of_nodup : type_of% @Sipsp.ucl_paramsWf := @Sipsp.ucl_paramsWf
+
+/-- **every header string without duplicate names is well formed for comparison** (`HdrsWf`) -/
+theorem hdrs_wf_of_nodup : type_of% @Sipsp.ucl_hdrsWf := @Sipsp.ucl_hdrsWf
+
+/-- **every URI ParseURI accepts (sip, sips, tel; at most 65,535 bytes) whose parameter and header names are free of
+    duplicates is well formed for comparison** (`URIWf`, the hypothesis of the symmetry law) -/
+theorem uri_wf_of_parse : type_of% @Sipsp.ucl_uriWf := @Sipsp.ucl_uriWf
+
+/-- **REFLEXIVITY for the raw-string entry point**: every raw URI of at most 65,535 bytes that ParseURI accepts, whose
+    parameter and header lists are well formed and free of duplicate names, is equal to itself under every flag
+    value; URIParseCmp reports no error and hands back the parsed URI twice. -/
+theorem refl_raw : type_of% @Sipsp.uriParseCmp_refl_raw := @Sipsp.uriParseCmp_refl_raw
+
+/-- **SYMMETRY for the raw-string entry point**: for ANY two byte strings of at most 65,535 bytes (accepted by
+    ParseURI or not) the verdict of URIParseCmp does not depend on the order of the arguments, provided the accepted
+    ones are free of duplicate parameter / header names -/
+theorem symm_raw : type_of% @Sipsp.uriParseCmp_symm_raw := @Sipsp.uriParseCmp_symm_raw
+
+/-- … with the complete results when both are accepted: same verdict, no error, the two parsed URIs handed back in the
+    order of the arguments -/
+theorem symm_raw_full : type_of% @Sipsp.uriParseCmp_symm_full := @Sipsp.uriParseCmp_symm_full
+
+/-- … and for raw URIs: a verdict "equal" of URIParseCmp without URICmpSkipParams means that each of `user`, `ttl`,
+    `method`, `maddr` is a parameter name of both URIs or of neither (at most 100 parameters each) -/
+theorem presence_raw : type_of% @Sipsp.uriParseCmp_presence_raw := @Sipsp.uriParseCmp_presence_raw
+
+/-- **LETTER CASE, ParseURI**: ParseURI returns the same result (verdict, position, all component offsets and
+    lengths, port number) on two byte strings that differ only in the case of ASCII letters — anywhere: scheme, user,
+    host, parameters, headers. -/
+theorem parse_uri_case : type_of% @Sipsp.parseURI_case := @Sipsp.parseURI_case
+
+/-- **LETTER CASE for the raw-string entry point**: for ANY two byte strings of at most 65,535 bytes, the complete
+    result of URIParseCmp (verdict, error, index, both parsed URIs — identical objects) is unchanged when the letter
+    case of either string is changed anywhere outside its user and password: scheme, host, parameter names and
+    values, header names and values.  No condition on duplicates or on the lists being well formed. -/
+theorem cmp_case_raw : type_of% @Sipsp.uriParseCmp_case := @Sipsp.uriParseCmp_case
+
+/-- **HOST LETTER CASE for the raw-string entry point**: for ANY two byte strings of at most 65,535 bytes, the
+    complete result of URIParseCmp (verdict, error, index, both parsed URIs) is unchanged when the letter case of
+    host bytes of either string is changed — no condition on duplicates or on the lists being well formed. -/
+theorem cmp_host_case_raw : type_of% @Sipsp.uriParseCmp_host_case := @Sipsp.uriParseCmp_host_case
+
+/-- the hypothesis `UclListsOk` of reflexivity is NECESSARY: ParseURI accepts `sip:a@b;<` (it does not look inside
+    the parameter string), ParseAllURIParams rejects `<`, and URIParseCmp then reports the URI different from
+    itself; same for a header string -/
+theorem refl_needs_lists_ok : type_of% @Sipsp.ucl_refl_needs_listsOk := @Sipsp.ucl_refl_needs_listsOk
+
+/-- the hypothesis `UclNoDup` is necessary for reflexivity and for symmetry (names equal up to case count as
+    duplicates) -/
+theorem symm_needs_nodup : type_of% @Sipsp.ucl_needs_nodup := @Sipsp.ucl_needs_nodup
 
 end Sipsp.C15
